@@ -66,15 +66,15 @@ type mstate struct {
 	cancelled   bool
 	deadline    int64 // ns, -1 = none
 	unpredicted bool  // a cancellation landed where the model does not decide the outcome (inside a batch)
-	sc     *Scn
-	visits []int
-	now    int64
-	known  bool
-	run    *MRun
-	steps  int
-	trail  string
-	last   map[int]int
-	long   bool
+	sc          *Scn
+	visits      []int
+	now         int64
+	known       bool
+	run         *MRun
+	steps       int
+	trail       string
+	last        map[int]int
+	long        bool
 }
 
 func (m *mstate) t() int64 {
